@@ -165,6 +165,7 @@ structure DrvSt where
   tqCfg : TQ.Cfg := TQ.fixedCfg
   tq : TQ.St := TQ.init
   ep : EP.St := EP.init
+  epc : EPC.St := EPC.init
 
 def boolTok? : String → Option Bool
   | "1" => some true | "0" => some false | _ => none
@@ -373,6 +374,35 @@ def handleEp (st : DrvSt) (toks : List String) : DrvSt × String :=
     | _, _ => (st, "bad-op")
   | _ => (st, "bad-op")
 
+def epcPcName : EPC.PC → String
+  | .fast => "start"
+  | .wantLock => "getOrCreate.afterFastPathMiss"
+  | .recheck => "recheck"
+  | .dial => "getOrCreate.afterRecheckMiss"
+  | .publish => "create.beforePublish"
+  | .done c => if c then "return.new" else "return.hit"
+
+def handleEpc (st : DrvSt) (toks : List String) : DrvSt × String :=
+  let s := st.epc
+  let show_ (s : EPC.St) (t : Nat) := s!"at={epcPcName (s.pc t)} dials={s.dials} pool={boolStr s.pool}"
+  match toks with
+  | ["reset"] => ({ st with epc := EPC.init }, "ok")
+  | ["spawn"] =>
+    match EPC.step s .spawn with
+    | some s' => ({ st with epc := s' }, s!"t={s.n}")
+    | none => (st, "disabled")
+  | ["step", t] =>
+    match t.toNat? with
+    | some t =>
+      match EPC.step s (.step t) with
+      | none => (st, "disabled")
+      | some s1 =>
+        -- there is no yield point between `createMu.Lock()` and the re-check
+        let s2 := if s1.pc t = .recheck then (EPC.step s1 (.step t)).getD s1 else s1
+        ({ st with epc := s2 }, show_ s2 t)
+    | none => (st, "bad-op")
+  | _ => (st, "bad-op")
+
 def handle (st : DrvSt) (line : String) : DrvSt × String :=
   match words line with
   | "trk" :: rest => handleTrk st rest
@@ -380,6 +410,7 @@ def handle (st : DrvSt) (line : String) : DrvSt × String :=
   | "key" :: rest => (st, handleKey rest)
   | "tq" :: rest => handleTq st rest
   | "ep" :: rest => handleEp st rest
+  | "epc" :: rest => handleEpc st rest
   | _ => (st, "bad-op")
 
 def main : IO Unit := lineLoopS ({} : DrvSt) handle
